@@ -8,6 +8,7 @@ import (
 	"math/rand"
 	"strings"
 	"sync"
+	"sync/atomic"
 	"time"
 
 	"perun.network/go-perun/channel"
@@ -70,7 +71,7 @@ func childMain(cfg props.Cfg) int {
 		nPos, nNeg = nPos/4+1, nNeg/8+1
 	}
 	rng := gen.NewRand(cfg.Seed, fmt.Sprintf("c08/%s/%d", mode, w))
-	for i := 0; i < nPos; i++ {
+	for i := 0; i < nPos && atomic.LoadInt64(&stallsSeen) < 3; i++ {
 		positive(s, em, rng, w == 0 && i < 2)
 	}
 	for done := 0; done < nNeg; {
@@ -232,6 +233,10 @@ func propose(P *party.Party, prop client.ChannelProposal) (*client.Channel, erro
 // stalled is a failed opening between honest clients in which nothing moved for a long time
 // before the request gave up: every message had been delivered, no ledger call was in flight,
 // the proposal had been accepted - the protocol is stuck, not slow.
+// stallsSeen counts stalled openings in this process: after a few, the remaining positives are
+// skipped (each costs the full patience; the violation is established).
+var stallsSeen int64
+
 type stallWatch struct {
 	w        *party.World
 	stop     chan struct{}
@@ -284,6 +289,7 @@ func openingFailed(s sink.Sink, sw *stallWatch, kind, what string, prop client.C
 	}
 	// no message was delivered and no ledger call made during the last two thirds of the wait
 	if accepted && total > 10*time.Second && quiet > total*2/3 {
+		atomic.AddInt64(&stallsSeen, 1)
 		s.Violation("C08/opening-stalled/"+kind, fmt.Sprintf("%s: the proposal was accepted but the opening never completed: every message had been delivered and nothing moved for %v before the request gave up (%v)", what, quiet.Round(time.Second), err),
 			openWitness{Kind: kind, Proposal: trunc(canon.String(prop)), Problems: []string{err.Error()}})
 		s.Case(fmt.Sprintf("positive|%s|%s", kind, canon.Shape(prop)), true)
